@@ -238,6 +238,46 @@ def overlap_monitor(ops, seq, seq_snap, res, snap):
     return bad
 
 
+def run_bulk_states(rp, npil, ntasks, bulk):
+    """Backfilling: pilots are added while still launching, tasks arrive and wait; then ONE state notification names several
+    pilots (the pilot manager publishes what it collected).  Returns the snapshot afterwards and what was forwarded."""
+    s = make_sched(rp, 'bf')
+    dispatch(rp, s, {'op': 'add', 'pids': list(range(npil)), 'cores': [4] * npil, 'stale': 0})
+    for p in range(npil):
+        dispatch(rp, s, {'op': 'pilot_state', 'pid': p, 'state': 'PMGR_LAUNCHING'})
+    dispatch(rp, s, {'op': 'work', 'tasks': [{'uid': u, 'cores': 1, 'pilot': None} for u in range(ntasks)]})
+    del s.rec[:]
+    err = None
+    try:
+        s._base_state_cb('state', {'cmd': 'update', 'arg': [{'type': 'pilot', 'uid': pname(p), 'state': st} for p, st in bulk]})
+    except Exception as e:
+        err = type(e).__name__
+    return snapshot(s, 'bf'), outs_of(rp.states, s.rec), err
+
+
+def bulk_states_part(ctx, rp):
+    import itertools
+    sts = ['PMGR_ACTIVE_PENDING', 'PMGR_ACTIVE', 'DONE', 'FAILED']
+    cfg = bf_cfg(rp)
+    n = 0
+    for npil in (2, 3):
+        for bulk_states in itertools.product(sts, repeat=npil):
+            for order in itertools.permutations(range(npil)):
+                bulk = [(p, bulk_states[p]) for p in order]
+                snap, outs, err = run_bulk_states(rp, npil, 3, bulk)
+                n += 1
+                ctx.case({'bulk_states': bulk}, nontrivial='PMGR_ACTIVE' in bulk_states)
+                room = [pe for pe in snap['pilots'] if pe[1] == 'added' and pe[2] is not None and cfg['start'] <= pe[2] <= cfg['stop'] and pe[4] < pe[5]]
+                if err:
+                    ctx.fail('bulk-notification:raises', '%s: %s' % (bulk, err), {'kind': 'bf', 'bulk_states': {'npil': npil, 'bulk': bulk}})
+                elif snap['wait'] and room:
+                    ctx.fail('bulk-notification:tasks-wait-although-an-eligible-pilot-has-room',
+                             'one notification %s: afterwards tasks %s wait, pilots %s are added, active and below their high-water mark'
+                             % (bulk, snap['wait'], [pe[0] for pe in room]), {'kind': 'bf', 'bulk_states': {'npil': npil, 'bulk': bulk}})
+    ctx.obligation('Backfilling: one state notification naming several pilots (every combination and order of 2-3 pilots entering / missing / leaving '
+                   'the window): no task keeps waiting while an eligible pilot has room (%d notifications)' % n, 'tie', True, '')
+
+
 def overlap_part(ctx, rp):
     rng = ctx.rng
     n = took = 0
@@ -250,6 +290,9 @@ def overlap_part(ctx, rp):
         for at in range(len(ops) - 1):
             # (a callback that hands tasks on, or a remove command that is accepted)
             if not any(o[0] == 'fwd' for o in seq[at][0]) and not (ops[at]['op'] == 'remove' and not seq[at][1]): continue
+            # (two callbacks of the same thread never overlap: add / remove commands are handled one after the other by the
+            #  control subscriber, state notifications by the state subscriber, new tasks by the input thread)
+            if THREAD_OF[ops[at]['op']] == THREAD_OF[ops[at + 1]['op']]: continue
             res, snap, tp = run_overlap(rp, ops, at)
             n += 1; took += tp
             ctx.case({'overlap': at, 'ops': ops}, nontrivial=tp)
@@ -258,6 +301,9 @@ def overlap_part(ctx, rp):
                 ctx.fail(sig, what, {'kind': 'bf', 'overlap': {'ops': ops, 'at': at}})
     ctx.obligation('Backfilling: a second callback handled by another thread while a pass hands its tasks on leaves what the two callbacks '
                    'leave one after the other (%d overlaps tried, %d took place)' % (n, took), 'tie', took > 0, 'no overlap took place')
+
+
+THREAD_OF = {'add': 'control', 'remove': 'control', 'pilot_state': 'state', 'task_states': 'state', 'work': 'input'}
 
 
 OVERLAP_CORPUS = [
@@ -485,6 +531,7 @@ def run(ctx):
                        what='%s scheduler: per-op forwards, errors, wait pool, early list, pilot table' %
                             ('RoundRobin' if kind == 'rr' else 'Backfilling'))
     overlap_part(ctx, rp)
+    bulk_states_part(ctx, rp)
     ctx.extra['distribution'] = dist
     ctx.rule = ('random scripts of 3-14 atomic callbacks over 1-4 pilots: add (1-2 pilots, sometimes already added), remove, '
                 'pilot state notifications (any state, any order), submissions of 1-6 tasks (25% naming a pilot, known or not), '
@@ -499,6 +546,13 @@ def run(ctx):
 def replay(ctx, data):
     rp = rpload.load()
     i  = data['input']
+    if i.get('bulk_states'):
+        b = i['bulk_states']
+        cfg = bf_cfg(rp)
+        snap, outs, err = run_bulk_states(rp, b['npil'], 3, [tuple(x) for x in b['bulk']])
+        room = [pe for pe in snap['pilots'] if pe[1] == 'added' and pe[2] is not None and cfg['start'] <= pe[2] <= cfg['stop'] and pe[4] < pe[5]]
+        print(snap, outs, err)
+        return not err and not (snap['wait'] and room)
     if i.get('overlap'):
         ops, res0, viol, _ = run_script(rp, 'bf', i['overlap']['ops'])
         seq = [(r['outs'], r['err']) for r in res0]
